@@ -489,6 +489,22 @@ theorem nodesBetween_complete (kids : List Node) (f t : Nat) :
     have : nzNode x = true := by simpa [nzNode] using hne x hx
     rw [hwin, this, Bool.true_and]
 
+/-- **ancestors**: when a listed node overlaps the range, so does the listed element it is a child
+    of (`ChildOf`, second case) — and that element comes earlier in the list, so by
+    `nodesBetween_complete` it is visited, and visited first -/
+theorem overlaps_parent (f t : Nat) (x e : Node × Nat × Nat)
+    (hc : e.1.kids[x.2.2]? = some x.1) (hp : x.2.1 = e.2.1 + 1 + fsize (e.1.kids.take x.2.2))
+    (hov : x.2.1 < t ∧ f < x.2.1 + x.1.size) :
+    e.2.1 < t ∧ f < e.2.1 + e.1.size ∧ e.1.size ≠ 0 ∧ e.2.1 < x.2.1 := by
+  have hb := child_size_le _ _ _ hc
+  obtain ⟨n, p, i⟩ := e
+  cases n with
+  | text s m => simp [Node.kids] at hc
+  | leaf ty a m => simp [Node.kids] at hc
+  | elem ty a m ks =>
+    simp only [Node.kids, Node.size_elem] at hb hp hov ⊢
+    omega
+
 /-- normal-form documents have no empty text nodes -/
 theorem noEmptyText_of_norm (kids : List Node) (h : fnorm kids = true) : NoEmptyText kids :=
   PM.noEmptyText_of_norm kids h
